@@ -59,7 +59,9 @@ CLAIMED = {
         "(permutation, ordered by key, equal keys in input order), for any comparison induced by a key. For lengths "
         ">= 1024 (in-place block merge) nothing is proved; there the check relies on the differential run against the "
         "stable-sort specification only. Implementation and model/spec are compared on lengths 0..4096 in many "
-        "orders with index-tagged events.",
+        "orders with index-tagged events; arrays of 262145 to 700001 events generated inside the harness (where blocks outgrow the "
+        "512-element cache and the internal buffers of the in-place merge are used; 97 % of wikisort.c's lines are reached) are "
+        "judged against a stable reference sort.",
    note="Trusted: Lean kernel, harness hx_cal.c. PARTIAL: the in-place branch of wikisort.c (n >= 1024) is not modelled; "
         "the comparison's being a key order is C08's ltP theorem.",
    technique="Lean 4 proof (refinement of each sort phase to the unique stable sort; iterator invariant) + differential correspondence check",
@@ -117,7 +119,10 @@ CLAIMED = {
         "table for users without unsaved changes) a user is shown only its own tasks (queue_isolation) and every task of "
         "its own still to run (queue_complete). Real echsd.c is driven with requests from known users of two uid ranges, "
         "root and an unknown peer over colliding UIDs, with GET /sched and GET /queue requests, busy spells that overflow "
-        "the daemon's list of marked users, and compared with the model and the abstract-map reference.",
+        "the daemon's list of marked users, and compared with the model and the abstract-map reference. The pool of 64 connection "
+        "slots (make_conn / free_conn, where each connection keeps its credentials): for every history of connects and hang-ups no "
+        "two live connections share a slot and a client is turned away only when 64 are live (slots_distinct, "
+        "turned_away_only_when_full); the real functions are driven with up to 100 simultaneous clients.",
    note="Trusted: as C04. NOT modelled: the 32-bit hash key of a UID and the open-addressing table (two UIDs with equal hash are one "
         "task, low-bit collisions grow the table) - findings D28/D29 are outside the model; getpwuid is replaced.",
    technique="Lean 4 proof (refinement to an abstract map, induction over request histories) + differential correspondence check",
@@ -248,19 +253,21 @@ CLAIMED = {
         "BYHOUR/BYMINUTE/BYSECOND, BYSETPOS, COUNT, UNTIL) and every seed 1901-2099 - including the skip-ahead over filtered "
         "days/hours/minutes, the month/year carry, the Monday alignment of weeks, the daily-to-weekly hand-over. FREQ=MONTHLY "
         "and YEARLY: the same two statements, BYSETPOS included, and across a refill (the seed is an occurrence of the original "
-        "DTSTART/rule; instances and BYSETPOS anchored at the seed equal those anchored at DTSTART), for the RFC rule language minus "
-        "two classes in which the code is wrong (recorded findings D125, D129: the theorem names carry _partial, the classes are "
-        "spelled out by MlySup / YlySup); monthly completeness assumes an occurrence within the first 336 periods (the code gives up "
-        "after 337 months, the calendar cycle plus one), which holds whenever the seed is an occurrence. "
+        "DTSTART/rule; instances and BYSETPOS anchored at the seed equal those anchored at DTSTART), for every combination of "
+        "BYMONTH / BYWEEKNO / BYYEARDAY / BYMONTHDAY / BYDAY (numbered entries included, also as a limit) that RFC 5545 allows - the "
+        "one combination it forbids, numbered BYDAY with BYWEEKNO alone, is excluded by hypothesis (YlySup.wkPlain) with a proved "
+        "counterexample; monthly completeness assumes an occurrence within the first 336 periods (the code gives up after 337 months, "
+        "the calendar cycle plus one), which holds whenever the seed is an occurrence. SHIFT and BYEASTER are C17's (r.shift = 0, "
+        "r.easter = [] here). "
         "On the real code: generated rules of all seven frequencies through the real parser and stream, 150-200 occurrences each across "
         "refills, compared one by one with an independent RFC 5545 reference expander; parsed rule structs compared with the expected "
         "encoding; the same events through the whole calendar parser.",
    note="Trusted: Lean kernel; Spec/Rfc5545.lean and Spec/Cal.lean (the reading of the RFC); vlib/rfc5545.py (independent second reading, "
         "used as oracle); harness hx_strm.c; the transcriptions Echse/Model/Rr*.lean. Hypothesis of the theorems: no BYHOUR/BYMINUTE/BYSECOND "
         "on a DATE-valued DTSTART (the code does not ignore them as the RFC demands; recorded). Zoned DTSTART is judged by the oracle only. "
-        "KNOWN FINDINGS D125 (numbered BYDAY next to BYMONTHDAY/BYYEARDAY is not applied as a limit) and D129 (YEARLY: BYWEEKNO/BYYEARDAY "
-        "next to BYMONTH/BYMONTHDAY yield a union): both classes are generated, judged and reported as KNOWN-FINDING; a repair is drafted "
-        "in /verif/pending and passes oracle and suite, it goes in together with the model and proof update.",
+        "D125 (numbered BYDAY next to BYMONTHDAY/BYYEARDAY not applied as a limit) and D129 (YEARLY: BYWEEKNO/BYYEARDAY next to "
+        "BYMONTH/BYMONTHDAY united instead of intersected) were found by the proof attempt, are repaired in /repo, and both rule "
+        "classes are generated on every run.",
    technique="Lean 4 proof (loop invariants linking incremental date arithmetic to day numbers; completeness by reachability of every instance) + reference-expander oracle + differential correspondence",
    design="§5 C01, §9"),
 }
